@@ -7,6 +7,7 @@ batch frame) -> evidence.
 """
 import copy
 import json
+import random
 import shutil
 import sys
 
@@ -1034,8 +1035,11 @@ def random_history(rng, names, n_steps):
                 # round 8 (C15O): a 2.0 DeleteAttribute may carry BOTH a Current Attribute and an Attribute Reference;
                 # the current attribute decides (exactly that instance goes), the reference may name the same or
                 # another attribute
-                if st.get('cur') is not None and rng.random() < 0.4:
-                    st['ref'] = n2 if rng.random() < 0.75 else rng.choice(CHANGEABLE)
+                # (drawn from a side stream derived from, but not consuming, the main one: the histories of earlier rounds
+                # stay what they were)
+                aux = random.Random(repr(rng.getstate()[1][:4]))
+                if st.get('cur') is not None and aux.random() < 0.4:
+                    st['ref'] = n2 if aux.random() < 0.75 else aux.choice(CHANGEABLE)
         else:
             q = rng.random()
             if q < 0.25:
